@@ -207,19 +207,26 @@ def gen_world(rw, rf, T, budget, base=None, tmode=None, n_clean=None, outage=Fal
         edgy = [x for x in acs if x["start_kind"] == "edge" and x["traj"]["legs"][0][3] == 1]
         if edgy and rw.random() < 0.7:
             a = edgy[0]
-        rcv = [a["traj"]["lat"] + rw.uniform(-0.3, 0.3), ((a["traj"]["lon"] + rw.uniform(-0.3, 0.3) + 180) % 360) - 180]
+        if rw.random() < 0.6:
+            dla, dlo = rw.uniform(-0.3, 0.3), rw.uniform(-0.3, 0.3)
+        else:
+            # a nominal receiver location far from the airport (network feed):
+            # the surface pair decode only needs it within +-45 deg of the target
+            dla = rw.choice([-1, 1]) * rw.choice([0.8, 1.6, 3.0, 10.0, 20.0])
+            dlo = rw.choice([-1, 1]) * rw.choice([0.8, 1.6, 3.0, 10.0, 25.0])
+        rcv = [a["traj"]["lat"] + dla, ((a["traj"]["lon"] + dlo + 180) % 360) - 180]
         rcv[0] = max(-89.0, min(89.0, rcv[0]))
     # only aircraft starting near the receiver may have ground legs (45 NM rule)
     for a in acs:
-        near = rcv is not None and abs(a["traj"]["lat"] - rcv[0]) <= 0.35 and W.lon_diff(a["traj"]["lon"], rcv[1]) <= 0.35
+        near = rcv is not None and abs(a["traj"]["lat"] - rcv[0]) <= 26.0 and W.lon_diff(a["traj"]["lon"], rcv[1]) <= 31.0
         if not near and rcv is not None:
             # keep ground legs only if the receiver is near; otherwise make them slow flight
             for leg in a["traj"]["legs"]:
                 if leg[3] == 1:
                     leg[1], leg[3], leg[4], leg[5] = max(leg[1], 90), 0, 1000.0, 0.0
-    # ... and every ground leg must stay within the surface format's range of
-    # the receiver (45 NM; 38 NM used) for its whole duration: an aircraft that
-    # flew away and lands elsewhere is out of the receiver's surface coverage
+    # ... and every ground leg must stay within reach of the surface pair decode
+    # (receiver within +-45 deg of the target in latitude and longitude; 30/35 deg
+    # used) for its whole duration
     if rcv is not None:
         for a in acs:
             for _ in range(6):
@@ -231,8 +238,7 @@ def gen_world(rw, rf, T, budget, base=None, tmode=None, n_clean=None, outage=Fal
                     if leg[3] == 1:
                         for k in range(0, n + 1, 4):
                             la, lo = tr.pos(tcur + k * W.DT)
-                            dn = math.hypot((la - rcv[0]) * 60.0, W.lon_diff(lo, rcv[1]) * 60.0 * math.cos(math.radians(la)))
-                            if dn > 38.0:
+                            if abs(la - rcv[0]) > 30.0 or W.lon_diff(lo, rcv[1]) > 35.0:
                                 bad = li
                                 break
                     if bad is not None:
